@@ -44,18 +44,18 @@ func init() {
 
 func init() {
 	Props["C12"] = PropInfo{
-		Explanation: "ERR-1/ERR-2 enumerate every error-returning call and every error test in the API-reachable functions of db, the root package and the driver, and decide by SSA value-flow (locals, captured cells, struct fields, fmt.Errorf) and path enumeration that no error value is dropped or tested-and-swallowed; SKIP-1 decides that no scan adapter of the root package can return `continue` without having delivered the row or recorded an error. ERR-5 (path-sensitive): an error that may be non-nil is never merely compared and replaced by nil; CACHE-2: a page that failed to parse is not cached.",
+		Explanation: "ERR-1/ERR-2 enumerate every error-returning call and every error test in the API-reachable functions of db, the root package and the driver, and decide by SSA value-flow (locals, captured cells, struct fields, fmt.Errorf) and path enumeration that no error value is dropped or tested-and-swallowed; SKIP-1 decides that no scan adapter of the root package can return `continue` without having delivered the row or recorded an error. ERR-5 (path-sensitive): an error that may be non-nil is never merely compared and replaced by nil; CACHE-2: a page that failed to parse is not cached. DRV-5: a short read never surfaces as a bare io.EOF through database/sql.",
 		NotDecided:  "That every failure produces an error value in the first place (e.g. a short read that happens to parse); the rules show that no code path loses an error value that exists.",
 	}
 	Props["C17"] = PropInfo{
-		Explanation: "DONE-1..3 decide, on the SSA of every b-tree iteration level and adapter, that the done flag of an inner iteration is returned as-is or leads straight to a return of true with no intervening call, that adapters return the user callback's answer, and that top-level scans return only the iteration's error; LOCK-1 shows that the unlock is deferred and so covers the early return. STATELESS: the iteration methods leave no state behind (nothing is stored on pages or the handle), so a stopped scan cannot change what the next one does; PAGER/DRV-4: the lock is released when a stopped scan returns. FMT-overflow/FRESH: what was delivered is not rewritten later (payloads are assembled onto the cell's own local part, scanned bytes are copies).",
+		Explanation: "DONE-1..3 decide, on the SSA of every b-tree iteration level and adapter, that the done flag of an inner iteration is returned as-is or leads straight to a return of true with no intervening call, that adapters return the user callback's answer, and that top-level scans return only the iteration's error; LOCK-1 shows that the unlock is deferred and so covers the early return. STATELESS: the iteration methods leave no state behind (nothing is stored on pages or the handle), so a stopped scan cannot change what the next one does; PAGER/DRV-4: the lock is released when a stopped scan returns. FMT-overflow/FRESH: what was delivered is not rewritten later (payloads are assembled onto the cell's own local part, scanned bytes are copies). DONE-2b: an adapter around a result-less row callback never stops the scan.",
 		NotDecided:  "That the traversal itself enumerates rows in the right order (C01/C02's traversal rules); nothing else data-dependent is needed.",
 	}
 }
 
 func init() {
 	Props["C07"] = PropInfo{
-		Explanation: "PAGER decides that the unix pager requests the pending byte and then the shared range with non-blocking F_SETLK read locks and returns both errors before any state change; LOCK-1 that a failed RLock returns before any page-reaching call (no rows); RD-TABLE extracts the decision table of resolveDirty by path enumeration: a hot journal without a live RESERVED lock is an error, every other combination proceeds to the header read; PAGER-6 that the RESERVED probe is F_GETLK/F_WRLCK on SQLite's reserved byte. LOCK-7: the handle does not drop its own SHARED lock while reading (no descriptor of the file is closed by pager code run under the lock).",
+		Explanation: "PAGER decides that the unix pager requests the pending byte and then the shared range with non-blocking F_SETLK read locks and returns both errors before any state change; LOCK-1 that a failed RLock returns before any page-reaching call (no rows); RD-TABLE extracts the decision table of resolveDirty by path enumeration: a hot journal without a live RESERVED lock is an error, every other combination proceeds to the header read; PAGER-6 that the RESERVED probe is F_GETLK/F_WRLCK on SQLite's reserved byte. LOCK-7: the handle does not drop its own SHARED lock while reading (no descriptor of the file is closed by pager code run under the lock). TXN-1: revalidation precedes every page read.",
 		NotDecided:  "What a real writer does in each lock state and that proceeding under RESERVED yields the last committed state (true because SQLite does not touch the file before EXCLUSIVE — an assumption about SQLite).",
 	}
 	Props["C08"] = PropInfo{
@@ -63,7 +63,7 @@ func init() {
 		NotDecided:  "History-dependent aspects: that SQLite bumps the counters as assumed and cache coherence for particular interleavings.",
 	}
 	Props["C09"] = PropInfo{
-		Explanation: "RD-TABLE: the journal gate precedes the header read on every path of every revalidation and a hot journal without a RESERVED lock is an error; JRNL-2: the journal consulted is <file>-journal; JRNL-3: a journal is hot only if it opens, carries SQLite's magic, a sane sector size, a full header and a full first sector, and everything else except a non-ENOENT open error means `no journal`; PAGER-6 for the RESERVED probe.",
+		Explanation: "RD-TABLE: the journal gate precedes the header read on every path of every revalidation and a hot journal without a RESERVED lock is an error; JRNL-2: the journal consulted is <file>-journal; JRNL-3: a journal is hot only if it opens, carries SQLite's magic, a sane sector size, a full header and a full first sector, and everything else except a non-ENOENT open error means `no journal`; PAGER-6 for the RESERVED probe. TXN-1: the journal check of resolveDirty precedes every page read of a transaction.",
 		NotDecided:  "The actual crash-point semantics of a dying SQLite writer (a statement about SQLite's write ordering).",
 	}
 	Props["C15"] = PropInfo{
@@ -85,55 +85,55 @@ func init() {
 
 func init() {
 	Props["C11"] = PropInfo{
-		Explanation: "CMP-matrix evaluates compare() by path enumeration under each of the 25 storage-class pairs (a finite abstraction: the operands are touched only through type tests) and checks the 20 cross-class constants and the 5 delegations incl. operand order; CMP-3way checks the sign tables of the three-way helpers over Order(a,b), that operands are used only in comparisons, and the exact int/real scheme (integer compared as integer, guarded truncation, fraction decided by a float comparison); CMP-search extracts the outcome table of one generic loop iteration of Search and Equals over (record shorter, sign of compare, Desc) with the per-column collation; COLL checks the three registered collations against SQLite's definitions. NARROW: every integer conversion that can change the value (a narrower target, or signed to unsigned) is proven to keep it on every path reaching it, is one of the listed intended ones, or sits in a decoder whose widths the format rules judge.",
+		Explanation: "CMP-matrix evaluates compare() by path enumeration under each of the 25 storage-class pairs (a finite abstraction: the operands are touched only through type tests) and checks the 20 cross-class constants and the 5 delegations incl. operand order; CMP-3way checks the sign tables of the three-way helpers over Order(a,b), that operands are used only in comparisons, and the exact int/real scheme (integer compared as integer, guarded truncation, fraction decided by a float comparison); CMP-search extracts the outcome table of one generic loop iteration of Search and Equals over (record shorter, sign of compare, Desc) with the per-column collation; COLL checks the three registered collations against SQLite's definitions. NARROW: every integer conversion that can change the value (a narrower target, or signed to unsigned) is proven to keep it on every path reaching it, is one of the listed intended ones, or sits in a decoder whose widths the format rules judge. COLLATE-VERBATIM: an explicit COLLATE (BINARY too) reaches the index column as written, so the comparison uses the collation the index was built with.",
 		NotDecided:  "NaN (never stored by SQLite), invalid UTF-8 under NOCASE, and that the relation is a total preorder for all concrete values (follows from the tables for the abstracted classes only).",
 	}
 }
 
 func init() {
 	Props["C14"] = PropInfo{
-		Explanation: "REC-table evaluates one generic iteration of parseRecord under each serial type 0..13 (path enumeration with the type assumed) and checks guard = bytes decoded = body advance = fileformat2 §2.1 and the sign-extension width; SIGN checks the 24/48-bit readers' shifts, mask and subtrahend; VARINT extracts the loop-body table of readVarint (7 bits for bytes 1..8, 8 bits for the 9th, precedence of the 9th-byte test, count, short input); FMT-spill compares the X/M/K formulas and the three-way choice with the spec after SSA removed naming (canonical expression trees); FMT-overflow checks the overflow page layout and that whole pages are appended. NARROW: every integer conversion that can change the value (a narrower target, or signed to unsigned) is proven to keep it on every path reaching it, is one of the listed intended ones, or sits in a decoder whose widths the format rules judge.",
+		Explanation: "REC-table evaluates one generic iteration of parseRecord under each serial type 0..13 (path enumeration with the type assumed) and checks guard = bytes decoded = body advance = fileformat2 §2.1 and the sign-extension width; SIGN checks the 24/48-bit readers' shifts, mask and subtrahend; VARINT extracts the loop-body table of readVarint (7 bits for bytes 1..8, 8 bits for the 9th, precedence of the 9th-byte test, count, short input); FMT-spill compares the X/M/K formulas and the three-way choice with the spec after SSA removed naming (canonical expression trees); FMT-overflow checks the overflow page layout and that whole pages are appended. NARROW: every integer conversion that can change the value (a narrower target, or signed to unsigned) is proven to keep it on every path reaching it, is one of the listed intended ones, or sits in a decoder whose widths the format rules judge. PAYLOAD-RAW: only addOverflow reads the in-page part of a payload, every record is parsed from its completed bytes.",
 		NotDecided:  "That multi-page chains concatenate correctly for concrete files, and the numeric value of each decode beyond width/sign structure. For serial types ≥ 12 the length expression is evaluated for sampled N (12, 13, 14, 15, 112, 113, 65548, 65549, 2^32, 2^32+1) and compared with (N−12)/2 resp. (N−13)/2; agreement for every N is not proven.",
 	}
 }
 
 func init() {
 	Props["C04"] = PropInfo{
-		Explanation: "SRCH: the predicates handed to sort.Search in the table leaf and interior pages, evaluated over Order(cell key, rowid), give (F,T,T) on the right field (first cell with key ≥ rowid — the file format's meaning of an interior key), the match test gives (F,T,F) and always stops; TRAV: the interior descent continues with the following children and the right-most child, the leaf delivers only the first qualifying cell; VARINT: rowid varints incl. the 9-byte negative form; DONE/ERR rules via their own ids. GLUE: the wiring functions between the public API and the b-tree (which table/index name is looked up and how, which column map, rowid and callback reach toRow and the scan, how the key is converted) route exactly the confirmed values on every error-free path. ROOT: the lookup starts at the page opened from the table's own root, never at a page remembered from another lookup; SRCH: `no row` is never answered without searching. NARROW: every integer conversion that can change the value (a narrower target, or signed to unsigned) is proven to keep it on every path reaching it, is one of the listed intended ones, or sits in a decoder whose widths the format rules judge.",
+		Explanation: "SRCH: the predicates handed to sort.Search in the table leaf and interior pages, evaluated over Order(cell key, rowid), give (F,T,T) on the right field (first cell with key ≥ rowid — the file format's meaning of an interior key), the match test gives (F,T,F) and always stops; TRAV: the interior descent continues with the following children and the right-most child, the leaf delivers only the first qualifying cell; VARINT: rowid varints incl. the 9-byte negative form; DONE/ERR rules via their own ids. GLUE: the wiring functions between the public API and the b-tree (which table/index name is looked up and how, which column map, rowid and callback reach toRow and the scan, how the key is converted) route exactly the confirmed values on every error-free path. ROOT: the lookup starts at the page opened from the table's own root, never at a page remembered from another lookup; SRCH: `no row` is never answered without searching. NARROW: every integer conversion that can change the value (a narrower target, or signed to unsigned) is proven to keep it on every path reaching it, is one of the listed intended ones, or sits in a decoder whose widths the format rules judge. PAYLOAD-RAW: only addOverflow reads the in-page part of a payload, every record is parsed from its completed bytes. CACHE: whatever get() consults is emptied by clear(), element updates of maps included.",
 		NotDecided:  "That interior keys on disk are ordered (a property of the input) and concrete lookups on real trees.",
 	}
 	Props["C13"] = PropInfo{
-		Explanation: "TRAV/TRAV-flag: shape of indexLeaf.IterMin and indexInterior.IterMin (search, then tail iteration; child before the cell's own entry; first child searched, later children and the right-most scanned); SRCH: the binary-search predicate is Search(key, record of that cell), key first, with the probe error latched; CMP-search/CMP-matrix: the comparison tables; RANGE: the cut-off tables of ScanEq/ScanRange/ScanMin. ROOT: range scans start at the index's own root. NARROW: every integer conversion that can change the value (a narrower target, or signed to unsigned) is proven to keep it on every path reaching it, is one of the listed intended ones, or sits in a decoder whose widths the format rules judge.",
+		Explanation: "TRAV/TRAV-flag: shape of indexLeaf.IterMin and indexInterior.IterMin (search, then tail iteration; child before the cell's own entry; first child searched, later children and the right-most scanned); SRCH: the binary-search predicate is Search(key, record of that cell), key first, with the probe error latched; CMP-search/CMP-matrix: the comparison tables; RANGE: the cut-off tables of ScanEq/ScanRange/ScanMin. ROOT: range scans start at the index's own root. NARROW: every integer conversion that can change the value (a narrower target, or signed to unsigned) is proven to keep it on every path reaching it, is one of the listed intended ones, or sits in a decoder whose widths the format rules judge. PAYLOAD-RAW: only addOverflow reads the in-page part of a payload, every record is parsed from its completed bytes.",
 		NotDecided:  "That the search lands on the right cell in real trees.",
 	}
 }
 
 func init() {
 	Props["C01"] = PropInfo{
-		Explanation: "TRAV: the table b-tree iteration methods consume every cell's child in order, then the right-most child, and leaves emit every cell; FMT-spill/FMT-overflow/REC-table: payload split, overflow layout and record decoding agree with the file format; ROWMAP: toRow's three cases (rowid / DEFAULT for short records / record[rowIndex]) and the rowid-alias decision of toColumnIndexRowid; ROWIDALIAS: which column aliases the rowid; ERR-1/2: a definition that cannot be interpreted surfaces as an error before any scan. GLUE: the wiring functions between the public API and the b-tree (which table/index name is looked up and how, which column map, rowid and callback reach toRow and the scan, how the key is converted) route exactly the confirmed values on every error-free path. NARROW: every integer conversion that can change the value (a narrower target, or signed to unsigned) is proven to keep it on every path reaching it, is one of the listed intended ones, or sits in a decoder whose widths the format rules judge. TYPENAME: a declared type with arguments must reach the schema whole (known finding: `INTEGER(n) PRIMARY KEY` is read as a rowid alias, so such a column shows the rowid instead of its values).",
+		Explanation: "TRAV: the table b-tree iteration methods consume every cell's child in order, then the right-most child, and leaves emit every cell; FMT-spill/FMT-overflow/REC-table: payload split, overflow layout and record decoding agree with the file format; ROWMAP: toRow's three cases (rowid / DEFAULT for short records / record[rowIndex]) and the rowid-alias decision of toColumnIndexRowid; ROWIDALIAS: which column aliases the rowid; ERR-1/2: a definition that cannot be interpreted surfaces as an error before any scan. GLUE: the wiring functions between the public API and the b-tree (which table/index name is looked up and how, which column map, rowid and callback reach toRow and the scan, how the key is converted) route exactly the confirmed values on every error-free path. NARROW: every integer conversion that can change the value (a narrower target, or signed to unsigned) is proven to keep it on every path reaching it, is one of the listed intended ones, or sits in a decoder whose widths the format rules judge. TYPENAME: a declared type with arguments must reach the schema whole (known finding: `INTEGER(n) PRIMARY KEY` is read as a rowid alias, so such a column shows the rowid instead of its values). DONE-2b: an adapter around a result-less row callback never stops the scan. WR-KEY-DEDUP: the record positions of a WITHOUT ROWID table follow the de-duplicated key; PAYLOAD-RAW: only addOverflow reads the in-page part of a payload.",
 		NotDecided:  "That decoded values, storage classes and order equal SQLite's on real files; the WITHOUT ROWID column store order (a permutation computed from names).",
 	}
 	Props["C02"] = PropInfo{
-		Explanation: "TRAV/TRAV-flag: index b-tree traversals emit left child, then the interior entry, then the right-most child, every cell; SKIP-1/SKIP-2/ERR: every index entry reaches the row callback or an error, never a stale or skipped row; CHOMP: the rowid is the last index field and the adapters look up and deliver the table row, WITHOUT ROWID lookups typed by the table's PK; IDXCOL: per-column collations; FMT-spill for index cells. GLUE: the wiring functions between the public API and the b-tree (which table/index name is looked up and how, which column map, rowid and callback reach toRow and the scan, how the key is converted) route exactly the confirmed values on every error-free path. NARROW: every integer conversion that can change the value (a narrower target, or signed to unsigned) is proven to keep it on every path reaching it, is one of the listed intended ones, or sits in a decoder whose widths the format rules judge.",
+		Explanation: "TRAV/TRAV-flag: index b-tree traversals emit left child, then the interior entry, then the right-most child, every cell; SKIP-1/SKIP-2/ERR: every index entry reaches the row callback or an error, never a stale or skipped row; CHOMP: the rowid is the last index field and the adapters look up and deliver the table row, WITHOUT ROWID lookups typed by the table's PK; IDXCOL: per-column collations; FMT-spill for index cells. GLUE: the wiring functions between the public API and the b-tree (which table/index name is looked up and how, which column map, rowid and callback reach toRow and the scan, how the key is converted) route exactly the confirmed values on every error-free path. NARROW: every integer conversion that can change the value (a narrower target, or signed to unsigned) is proven to keep it on every path reaching it, is one of the listed intended ones, or sits in a decoder whose widths the format rules judge. SCHEMA-IDX: only index rows of this very table are attached to its schema; DONE-2b: an adapter around a result-less row callback never stops the scan. COLLATE-VERBATIM, CONSTRAINT-ORDER, WR-KEY-DEDUP: the key columns, collations and directions the lookups use are those of the definition as SQLite reads it.",
 		NotDecided:  "Partial-index membership, expression columns, tie order, collation order on real data (C11's tables cover the comparator).",
 	}
 	Props["C03"] = PropInfo{
-		Explanation: "KEY: asDbKey carries index column i's direction and validated collation to key column i and maps every documented Go type to a storage type; RANGE: ScanEq searches and filters with the same key and stops at the first unequal record; PKSEL: the primary-key dispatch table; IDXCOL: collation of index columns; CMP-matrix/CMP-search: the comparison tables; SRCH/TRAV/DONE-0: the binary search and the descent it starts. GLUE: the wiring functions between the public API and the b-tree (which table/index name is looked up and how, which column map, rowid and callback reach toRow and the scan, how the key is converted) route exactly the confirmed values on every error-free path. NARROW: every integer conversion that can change the value (a narrower target, or signed to unsigned) is proven to keep it on every path reaching it, is one of the listed intended ones, or sits in a decoder whose widths the format rules judge.",
+		Explanation: "KEY: asDbKey carries index column i's direction and validated collation to key column i and maps every documented Go type to a storage type; RANGE: ScanEq searches and filters with the same key and stops at the first unequal record; PKSEL: the primary-key dispatch table; IDXCOL: collation of index columns; CMP-matrix/CMP-search: the comparison tables; SRCH/TRAV/DONE-0: the binary search and the descent it starts. GLUE: the wiring functions between the public API and the b-tree (which table/index name is looked up and how, which column map, rowid and callback reach toRow and the scan, how the key is converted) route exactly the confirmed values on every error-free path. NARROW: every integer conversion that can change the value (a narrower target, or signed to unsigned) is proven to keep it on every path reaching it, is one of the listed intended ones, or sits in a decoder whose widths the format rules judge. SCHEMA-IDX: only index rows of this very table are attached to its schema; DONE-2b: an adapter around a result-less row callback never stops the scan. COLLATE-VERBATIM, CONSTRAINT-ORDER, WR-KEY-DEDUP: the key columns, collations and directions the lookups use are those of the definition as SQLite reads it.",
 		NotDecided:  "That the binary search finds the first equal entry on real trees; PK/index resolution against SQLite's catalogue (C10).",
 	}
 	Props["C10"] = PropInfo{
-		Explanation: "GRAM: every grammar value the parser reports is defined by the element's own production; ROWIDALIAS: the rowid-alias decision table and its call sites; IDXCOL: collation inheritance with a case-insensitive column lookup; SCHEMA-err via ERR-1/2 exceptions (unparseable table ⇒ error, unparseable index ⇒ omitted); AUTOIDX: the automatic-index counter advances only when an index was added (rowid tables). NEWCT: column-level PRIMARY KEY/UNIQUE become keys on that column with its collation and direction; IDENT-VERBATIM: the parser never rewrites the case of a name; TOK-ADV: the tokenizer advances by exactly the token it read. ADDINDEX same-key: two UNIQUE/PRIMARY KEY constraints are one key iff same columns (any spelling) and collations, whatever the direction, and a WITHOUT ROWID key that takes over an earlier index keeps that index's columns and consumes no automatic-index number (AUTOIDX); TYPENAME: a declared type with arguments must reach the schema whole (known finding: INTEGER(n) PRIMARY KEY is read as a rowid alias).",
+		Explanation: "GRAM: every grammar value the parser reports is defined by the element's own production; ROWIDALIAS: the rowid-alias decision table and its call sites; IDXCOL: collation inheritance with a case-insensitive column lookup; SCHEMA-err via ERR-1/2 exceptions (unparseable table ⇒ error, unparseable index ⇒ omitted); AUTOIDX: the automatic-index counter advances only when an index was added (rowid tables). NEWCT: column-level PRIMARY KEY/UNIQUE become keys on that column with its collation and direction; IDENT-VERBATIM: the parser never rewrites the case of a name; TOK-ADV: the tokenizer advances by exactly the token it read. ADDINDEX same-key: two UNIQUE/PRIMARY KEY constraints are one key iff same columns (any spelling) and collations, whatever the direction, and a WITHOUT ROWID key that takes over an earlier index keeps that index's columns and consumes no automatic-index number (AUTOIDX); TYPENAME: a declared type with arguments must reach the schema whole (known finding: INTEGER(n) PRIMARY KEY is read as a rowid alias). SCHEMA-IDX: only index rows of this very table (with SQL text) are attached to its schema; AUTOIDX also: the counter changes by +1 only and advances whenever a constraint made an index of its own. COLLATE-VERBATIM: collation names reach the statement structs as written; WR-KEY-DEDUP: a WITHOUT ROWID table-level key drops a column it already has; CONSTRAINT-ORDER: a column's UNIQUE and PRIMARY KEY are applied in the order they were written; TOK-START: the tokenizer and readBareword agree on what can start a bare word.",
 		NotDecided:  "Automatic-index de-duplication and appended key columns beyond the counter discipline — SQLite catalogue rules implemented as name arithmetic.",
 	}
 }
 
 func init() {
 	Props["C05"] = PropInfo{
-		Explanation: "PANIC: every index, slice, division, make, byte-order read, non-comma-ok assertion and explicit panic in the API-reachable functions (goyacc skeleton excepted) is discharged on every path reaching it (path enumeration with loop generations) by a difference-constraint prover fed with the path's branch literals, definitions, checked callee contracts, preconditions proven at every call site and field invariants proven at every store; NIL: results of functions that may return nil are dereferenced only under a non-nil test or after a validating loop; TERM-1: every call-graph cycle spends recursion budget; TERM-2: every loop is a range, progress, shrink or bounded-growth loop; CONTRACT: the contracts themselves; GRAM-0: parser value-stack indices. CACHE-2: a page that failed to parse (a typed nil pointer) never enters the cache; ERR-5. NARROW: every integer conversion that can change the value (a narrower target, or signed to unsigned) is proven to keep it on every path reaching it, is one of the listed intended ones, or sits in a decoder whose widths the format rules judge. KEY: a collation name reaches the comparison only after it was found in CollateFuncs under the very name stored (an unknown name would call a nil function).",
+		Explanation: "PANIC: every index, slice, division, make, byte-order read, non-comma-ok assertion and explicit panic in the API-reachable functions (goyacc skeleton excepted) is discharged on every path reaching it (path enumeration with loop generations) by a difference-constraint prover fed with the path's branch literals, definitions, checked callee contracts, preconditions proven at every call site and field invariants proven at every store; NIL: results of functions that may return nil are dereferenced only under a non-nil test or after a validating loop; TERM-1: every call-graph cycle spends recursion budget; TERM-2: every loop is a range, progress, shrink or bounded-growth loop; CONTRACT: the contracts themselves; GRAM-0: parser value-stack indices. CACHE-2: a page that failed to parse (a typed nil pointer) never enters the cache; ERR-5. NARROW: every integer conversion that can change the value (a narrower target, or signed to unsigned) is proven to keep it on every path reaching it, is one of the listed intended ones, or sits in a decoder whose widths the format rules judge. KEY: a collation name reaches the comparison only after it was found in CollateFuncs under the very name stored (an unknown name would call a nil function). TOK-START: the tokenizer always advances (no hang on any input).",
 		NotDecided:  "The magnitude of bounds (a self-referencing interior page is re-traversed exponentially often before the budget runs out; a 2 GiB declared payload is `bounded`), stack depth of readQuoted on megabytes of doubled quotes, memory use of the page cache; mutation of a field by a callee between a length test and its use is not tracked (no such pattern on the tree).",
 	}
 	Props["C16"] = PropInfo{
-		Explanation: "local: GRAM-0/1 (every semantic value is defined by its own production; stale value-stack slots are reported with the production that can leak into them); deterministic: GLOB-1 over package sql (keyword/operator maps, parser tables and flags never written after init) and GRAM-3 (fresh lexer and parser per Parse); total: PANIC over the tokenizer, lexer, sql.go helpers and (through GRAM-0) the action switch, TERM-1/2 for the tokenizer loops and readQuoted's recursion. TOK-LOCAL: the tokenizer carries only its position and result between tokens and Lex overwrites every value field; TOK-ADV: exact advance per token; IDENT-VERBATIM.",
+		Explanation: "local: GRAM-0/1 (every semantic value is defined by its own production; stale value-stack slots are reported with the production that can leak into them); deterministic: GLOB-1 over package sql (keyword/operator maps, parser tables and flags never written after init) and GRAM-3 (fresh lexer and parser per Parse); total: PANIC over the tokenizer, lexer, sql.go helpers and (through GRAM-0) the action switch, TERM-1/2 for the tokenizer loops and readQuoted's recursion. TOK-LOCAL: the tokenizer carries only its position and result between tokens and Lex overwrites every value field; TOK-ADV: exact advance per token; IDENT-VERBATIM. CONTRACT token count: readNumericLiteral/readQuoted answer −1 or a count within 1..len, readBareword within 0..len (the tokenizer advances by these counts). TOK-START: every way readBareword can answer a count of 0 contradicts the tokenizer's dispatch condition, so the tokenizer always advances.",
 		NotDecided:  "That accepted statements are SQLite's language; the multi-byte bareword advance in tokenize (wrong tokens or an error, never a panic).",
 	}
 	Props["C18"] = PropInfo{
